@@ -556,27 +556,37 @@ Hypothesis Htotal : forall r, feedable (rs_kind (nth r rs rsdummy)) (rs_eof (nth
 Notation Inv := (Inv rs cs).
 Notation cinv := (cinv rs).
 
-Lemma complete_inv : forall rest st j, Inv None rest total st -> Inv None rest total (complete st j).
+(** a completable request: the whole of [complete] is "retire the call, then go on" *)
+Lemma complete_eq : forall rest st j q kq cl v bytes x',
+  Inv None rest total st ->
+  nth_error (s_inflight st) j = Some q ->
+  nth_error (s_callers st) (q_own q) = Some kq -> k_stat kq = SWait cl ->
+  q = {| q_tok := k_tok kq; q_own := q_own q; q_seq := k_seq kq; q_call := cl |} ->
+  kernel (c_res cl) (nth (c_res cl) (s_res st) rdummy) (c_op cl) (c_len cl) = KDone v bytes x' ->
+  complete st j =
+  advance {| s_res := upd (c_res cl) x' (s_res st);
+             s_callers := upd (q_own q) {| k_co := k_co kq; k_tok := k_tok kq; k_prog := k_prog kq; k_stat := SDone;
+                                           k_out := map_result v bytes :: k_out kq; k_seq := k_seq kq;
+                                           k_slot := None; k_buf := [] |} (s_callers st);
+             s_inflight := del_nth j (s_inflight st);
+             s_table := tdel (k_tok kq) (s_table st);
+             s_dead := None; s_div := false; s_tags := s_tags st |}
+          (q_own q)
+          {| k_co := k_co kq; k_tok := k_tok kq; k_prog := k_prog kq; k_stat := SDone;
+             k_out := map_result v bytes :: k_out kq; k_seq := k_seq kq; k_slot := None; k_buf := [] |}.
 Proof.
-  intros rest st j HI. unfold complete.
-  destruct (nth_error (s_inflight st) j) as [q|] eqn:Hq; auto.
-  destruct (i_fl_a _ _ _ _ _ _ HI q (nth_error_In _ _ Hq)) as [kq [cl [Hk [Hst Hqeq]]]].
+  intros rest st j q kq cl v bytes x' HI Hq Hk Hst Hqeq Hker. unfold complete. rewrite Hq.
   set (i := q_own q) in *.
   assert (Hcl : q_call q = cl) by (rewrite Hqeq; auto).
   assert (Htok : q_tok q = k_tok kq) by (rewrite Hqeq; auto).
   assert (Hseq : q_seq q = k_seq kq) by (rewrite Hqeq; auto).
-  rewrite Hcl.
-  destruct (kernel (c_res cl) (nth (c_res cl) (s_res st) rdummy) (c_op cl) (c_len cl)) as [|v bytes x'] eqn:Hker; auto.
+  rewrite Hcl, Hker.
   assert (Hlt : (i < length (s_callers st))%nat) by (eapply nth_error_some_lt; eauto).
-  assert (Hlc : (i < length cs)%nat) by (rewrite <- (i_len _ _ _ _ _ _ HI); auto).
-  destruct (nth_error_lt_some cs i Hlc) as [c Hc].
-  pose proof (retire_inv rs cs Hnd Hpriv Hcalls Hnodef total Htotal rest st j q i kq cl c v bytes x'
-                HI Hq eq_refl Hk Hst Hcl Hc Hker) as HR.
-  match type of HR with Inv _ _ _ ?S => set (SR := S) in * end.
   pose proof (i_table _ _ _ _ _ _ HI i kq Hk) as Htab. unfold waiting in Htab. rewrite Hst in Htab.
   pose proof (inv_nodup rs cs Hnd _ _ _ _ HI) as ND.
   set (krun := {| k_co := k_co kq; k_tok := k_tok kq; k_prog := k_prog kq; k_stat := SDone;
                   k_out := map_result v bytes :: k_out kq; k_seq := k_seq kq; k_slot := None; k_buf := [] |}).
+  match goal with |- _ = advance ?S _ _ => set (SR := S) end.
   (* the data lands in the call's buffer *)
   unfold land. norm_st. fold i.
   rewrite (nth_error_nth _ _ _ cdummy Hk). rewrite Hst. cbn [is_wait andb]. rewrite Hseq, Nat.eqb_refl.
@@ -596,17 +606,31 @@ Proof.
   rewrite Hwoken. rewrite nth_upd_same by auto.
   change (k_stat kslot) with (k_stat kq). rewrite Hst. cbn [is_wait].
   change (k_slot kslot) with (Some v). change (k_buf kslot) with bytes.
-  unfold finish_call.
-  match goal with |- Inv _ _ _ (advance ?S0 i ?K0) =>
-    replace (advance S0 i K0) with (advance SR i krun) end.
-  - eapply (advance_inv rs cs Hnd Hpriv Hcalls Hnodef); eauto.
-    unfold SR; cbn [s_callers]. apply nth_error_upd_same; auto.
-  - match goal with |- _ = advance ?S0 i ?K0 =>
-      transitivity (advance (set_caller S0 i krun) i K0); [|apply advance_irrel] end.
-    replace (set_caller _ i krun) with SR.
-    + apply advance_stat_irrel; try reflexivity. unfold SR, krun; cbn [s_table k_tok]. apply tget_tdel_same.
-    + unfold SR, set_caller, set_callers, set_table, set_inflight, set_res. cbn.
-      rewrite !upd_upd, (i_alive _ _ _ _ _ _ HI), (i_nodiv _ _ _ _ _ _ HI). reflexivity.
+  unfold finish_call. symmetry.
+  match goal with |- _ = advance ?S0 i ?K0 =>
+    transitivity (advance (set_caller S0 i krun) i K0); [|apply advance_irrel] end.
+  replace (set_caller _ i krun) with SR.
+  - apply advance_stat_irrel; try reflexivity. unfold SR, krun; cbn [s_table k_tok]. apply tget_tdel_same.
+  - unfold SR, set_caller, set_callers, set_table, set_inflight, set_res. cbn.
+    rewrite !upd_upd, (i_alive _ _ _ _ _ _ HI), (i_nodiv _ _ _ _ _ _ HI). reflexivity.
+Qed.
+
+Lemma complete_inv : forall rest st j, Inv None rest total st -> Inv None rest total (complete st j).
+Proof.
+  intros rest st j HI.
+  destruct (nth_error (s_inflight st) j) as [q|] eqn:Hq.
+  2:{ unfold complete. rewrite Hq. auto. }
+  destruct (i_fl_a _ _ _ _ _ _ HI q (nth_error_In _ _ Hq)) as [kq [cl [Hk [Hst Hqeq]]]].
+  assert (Hcl : q_call q = cl) by (rewrite Hqeq; auto).
+  destruct (kernel (c_res cl) (nth (c_res cl) (s_res st) rdummy) (c_op cl) (c_len cl)) as [|v bytes x'] eqn:Hker.
+  { unfold complete. rewrite Hq, Hcl, Hker. auto. }
+  rewrite (complete_eq rest st j q kq cl v bytes x' HI Hq Hk Hst Hqeq Hker).
+  assert (Hlt : (q_own q < length (s_callers st))%nat) by (eapply nth_error_some_lt; eauto).
+  assert (Hlc : (q_own q < length cs)%nat) by (rewrite <- (i_len _ _ _ _ _ _ HI); auto).
+  destruct (nth_error_lt_some cs _ Hlc) as [c Hc].
+  eapply (advance_inv rs cs Hnd Hpriv Hcalls Hnodef); eauto.
+  - eapply (retire_inv rs cs Hnd Hpriv Hcalls Hnodef total Htotal); eauto.
+  - cbn [s_callers]. apply nth_error_upd_same; auto.
 Qed.
 
 Lemma reg_inv : forall rest st c, Inv None rest total st -> Inv None rest total (reg st c).
